@@ -36,8 +36,11 @@ def combinator_validation(chk, fb, b, step, check, closure_args, closure_calls):
     variables of the expression being differentiated; the differentiation consumes the same iterator."""
     from analysis.interp import Interp, Policy, Sym, App, Closure, show
     args = [Sym("p%d" % i) for i in range(1, b["arg_count"] + 1)]
-    ps = [p for p in Interp(fb, Policy()).run(b, args) if p.status != "unreachable"]
-    if any(p.status != "return" for p in ps):
+
+    class PW(Policy):
+        loop_mode = "widen"     # the differentiation itself may be an explicit loop
+    ps = [p for p in Interp(fb, PW()).run(b, args) if p.status != "unreachable"]
+    if any(p.status not in ("return", "loop-pruned") for p in ps):
         return False
     found = False
     for p in ps:
@@ -90,6 +93,16 @@ def run(ctx):
              and "MissingOpMode" in s["inputs"][2] and "DeepEx<" in s["output"] and s["output"].startswith("std::result::Result<")]
     checks = [p for p, s in sig.items() if len(s["inputs"]) >= 2 and s["inputs"][0] == "usize" and s["inputs"][1] == "usize"
               and s["output"].startswith("std::result::Result<(), ")]
+    # several functions may share the signature (e.g. a helper split off the step): the step is the one called by a
+    # Differentiate method; a canonical name, if present, decides as well
+    if len(steps) > 1:
+        cg0 = CallGraph(fb)
+        named = [s for s in steps if s.endswith("::partial_deepex")]
+        called = [s for s in steps if any("Differentiate" in re.sub(r"(::\{closure#\d+\})+$", "", c) for c in cg0.callers_of(s))]
+        steps = named if len(named) == 1 else (called if len(called) == 1 else steps)
+    if len(checks) > 1:
+        named = [s for s in checks if s.endswith("::check_partial_index")]
+        checks = named if len(named) == 1 else checks
     if len(steps) != 1 or len(checks) != 1:
         chk.violation("R09.1", "anchor", "differentiation step / index check not found by role: %s / %s" % (steps, checks))
         return
